@@ -87,13 +87,41 @@ where
     rec
 }
 
+/// Decode only: outcome, error, remainder length, Debug rendering, peak allocation (no re-encode, no tree).
+pub fn run_light<T>(input: &[u8]) -> (&'static str, &'static str, Vec<u16>, usize, String, usize)
+where
+    T: ZvtSerializer + std::fmt::Debug + PartialEq,
+    zvt::encoding::Default: zvt::encoding::Encoding<T>,
+{
+    let base = alloc::mark();
+    let r = guarded(|| T::zvt_deserialize(input).map(|(v, rest)| (format!("{:?}", v), suffix_offset(input, rest).is_some(), rest.len())));
+    let peak = alloc::peak_since(base);
+    let over = peak > 65536 + 64 * input.len() + 8 * 1024 * 0;
+    match r {
+        Err(_) => ("panic", "", vec![], 0, String::new(), peak),
+        Ok(Err(e)) => (if over { "overalloc" } else { "err" }, err_kind(&e), err_tags(&e), 0, String::new(), peak),
+        Ok(Ok((d, is_tail, n))) => {
+            // the Debug string itself is allocated inside the measured region: allow for it
+            let over = peak > 65536 + 64 * input.len() + 4 * d.len();
+            (if !is_tail { "badrest" } else if over { "overalloc" } else { "ok" }, "", vec![], n, d, peak)
+        }
+    }
+}
+
 type Runner = fn(&[u8]) -> Rec;
+pub type LightRunner = fn(&[u8]) -> (&'static str, &'static str, Vec<u16>, usize, String, usize);
 
 macro_rules! registry {
     ($( $name:literal => $ty:ty ),* $(,)?) => {
         pub fn runner(name: &str) -> Option<Runner> {
             match name {
                 $( $name => Some(run_one::<$ty> as Runner), )*
+                _ => None,
+            }
+        }
+        pub fn light_runner(name: &str) -> Option<LightRunner> {
+            match name {
+                $( $name => Some(run_light::<$ty> as LightRunner), )*
                 _ => None,
             }
         }
